@@ -170,12 +170,21 @@ class Database:
             logger.info(
                 "Applying migration version %d (%s)", idx, migration.__name__
             )
-            await migration(self.conn)
-            await self.execute(
-                "insert into versions (version) values (?)",
-                str(idx),
-                commit=True,
-            )
+            # A migration and the record that it has been applied have to
+            # happen together. Otherwise, if we are killed in between, the
+            # next start would apply the migration a second time and fail
+            # ("table versions already exists", "duplicate column name").
+            #
+            await self.conn.execute("BEGIN")
+            try:
+                await migration(self.conn)
+                await self.conn.execute(
+                    "insert into versions (version) values (?)", str(idx)
+                )
+                await self.conn.commit()
+            except BaseException:
+                await self.conn.rollback()
+                raise
 
     ####################################################################
     #
